@@ -18,6 +18,7 @@ def lockStep (s : LockScan) : Ev → LockScan
   | .unlock m => { s with held := s.held.erase m }
   | .deferUnlock m => { s with deferred := m :: s.deferred }
   | .ret => { s with ok := s.ok && s.held.all (s.deferred.contains ·) }
+  | .access _ => s
 
 def balanced (evs : List Ev) : Bool :=
   let s := evs.foldl lockStep {}
@@ -28,6 +29,29 @@ def balanced (evs : List Ev) : Bool :=
 def heldAtExit (evs : List Ev) : List String :=
   let s := evs.foldl lockStep {}
   s.held.filter (fun m => !s.deferred.contains m)
+
+/-- is the mutex expression `m` the one that guards table `field`?  (`a.SocksCliMtx` guards `SocksCli`, …) -/
+def guards (m field : String) : Bool :=
+  let suf := field.toList ++ "Mtx".toList
+  (m.toList.reverse.take suf.length).reverse == suf
+
+structure AccessScan where
+  held : List String := []
+  bad : List String := []
+
+def accessStep (s : AccessScan) : Ev → AccessScan
+  | .lock m | .trylock m => { s with held := m :: s.held }
+  | .unlock m => { s with held := s.held.erase m }
+  | .access f => if s.held.any (guards · f) then s else { s with bad := f :: s.bad }
+  | _ => s
+
+/-- table accesses of a function that happen while the table's mutex is not held -/
+def unguarded (tables : List String) (evs : List Ev) : List String :=
+  ((evs.foldl accessStep {}).bad).filter (tables.contains ·)
+
+def unguardedIn (pkgs tables : List String) : List (String × List String) :=
+  (funcs.filterMap fun (pkg, n, evs) =>
+    if pkgs.contains pkg ∧ (unguarded tables evs) ≠ [] then some (pkg ++ "/" ++ n, unguarded tables evs) else none)
 
 def unbalancedIn (pkgs : List String) : List String :=
   (funcs.filter fun (pkg, _, evs) => pkgs.contains pkg && !balanced evs).map fun (pkg, n, _) => pkg ++ "/" ++ n
